@@ -96,6 +96,18 @@ example : TraceIn.accepts [.connUp false, .subOk, .connUp true, .connUp false, .
 example : TraceIn.accepts [.connUp false, .subOk, .connUp false, .deliver 9 0 0, .connUp false, .deliver 9 0 0] = false := by decide
 example : TraceIn.accepts [.connUp false, .subOk, .connUp true, .deliver 9 0 0] = false := by decide
 
+/-- **C13 end to end (order), every accepted history**: after every prefix, what the application was handed on the QoS 0 lane of the receive
+channel — QoS 0 messages and `session_expired` reports (written `0`; real messages are numbered from 1) — is, in this order, a subsequence
+of what became due on that lane (`TraceIn.laneDue`, from the events alone: every QoS 0 message when it is received, a report at the reconnect
+that loses the session). So a report is never handed over after a QoS 0 message that arrived after the session was lost; QoS 1 / QoS 2
+messages of the new session enter the same first-in-first-out channel later still (only when their acknowledgement has been written). -/
+theorem composed_report_ahead_of_new_messages (tr pre post : List TraceIn.Ev) (hacc : TraceIn.accepts tr = true) (hsplit : tr = pre ++ post) :
+    (TraceIn.laneDelivered pre).Sublist (TraceIn.laneDue pre) :=
+  Mqtt5V.Proofs.TraceIn.lane_in_order hacc pre post hsplit
+
+example : TraceIn.accepts [.connUp false, .subOk, .connUp false, .rxPub 0 0 5, .deliver 9 0 0, .deliver 0 0 5] = true := by decide
+example : TraceIn.accepts [.connUp false, .subOk, .connUp false, .rxPub 0 0 5, .deliver 0 0 5, .deliver 9 0 0] = false := by decide
+
 end ComposedModel
 
 end Mqtt5V.Props.C13
